@@ -664,7 +664,7 @@ pub fn meta() -> super::Meta {
     super::Meta {
         id: ID,
         level: "fault_enumeration",
-        rule: "case = a triangulation reached through the API (batch construction, then generated insertions, removals leaving vacated slot-map slots, flips, repair) with i32 vertex data and planted i32 cell data; (1) round trip through serde_json at the Tds level (the documented path for non-unit data) and at the DelaunayTriangulation<FastKernel,(),()> level: identical fingerprint incl. cell UUIDs and data, ==, identical validation levels, identical behaviour under a follow-up insert/remove script; (2) fault enumeration over the JSON document: for up to 6 vertices, 6 cells and 6 cell_vertices entries every single-field corruption (vacate / remove / duplicate records, replace / nil / duplicate UUIDs, coordinate := null, string, Infinity, NaN, bool, wrong arity, slot version parity, null value, delete / rename / shorten / extend (by a repeated, another live or an unknown vertex) / repeat / dangling / permuted / swapped / duplicated cell_vertices lists, missing or mistyped top-level fields, truncated text): the load must fail or the loaded structure must pass the independent L1 and L2 checks; evaluations = round trips + corrupted documents loaded; non-trivial = state with a removal or cell data, or a case whose corruptions were enumerated; distinct by the whole case",
+        rule: "case = a triangulation reached through the API (batch construction, then generated insertions, removals leaving vacated slot-map slots, flips, repair) with i32 vertex data and planted i32 cell data; (1) round trip through serde_json at the Tds level (the documented path for non-unit data) and at the DelaunayTriangulation<FastKernel,(),()> level: identical fingerprint incl. cell UUIDs and data, ==, identical validation levels, identical behaviour under a follow-up insert/remove script; on the loaded DelaunayTriangulation itself a point 5e-11 from a live vertex must still be refused and every accepted insertion must keep the independent L1-L3 levels; a third of the cases replace start coordinates by -0.0, subnormals and the smallest normal numbers (classes state_has_subnormal_coordinate / state_has_negative_zero count the documents that really contain them); (1b) Vertex-level round trip over arbitrary finite bit patterns (all exponents incl. 0 = subnormal and 2046, boundary mantissas): coordinate bits, UUID and data identical; (2) fault enumeration over the JSON document: for up to 6 vertices, 6 cells and 6 cell_vertices entries every single-field corruption (vacate / remove / duplicate records, replace / nil / duplicate UUIDs, coordinate := null, string, Infinity, NaN, bool, wrong arity, slot version parity, null value, delete / rename / shorten / extend (by a repeated, another live or an unknown vertex) / repeat / dangling / permuted / swapped / duplicated cell_vertices lists, missing or mistyped top-level fields, truncated text): the load must fail or the loaded structure must pass the independent L1 and L2 checks; evaluations = round trips + corrupted documents loaded; non-trivial = state with a removal or cell data, or a case whose corruptions were enumerated; distinct by the whole case",
         assumptions: &[
             "a corrupted document that happens to describe another consistent complex (e.g. a changed but unique UUID) may load",
             "cell UUIDs of cells created after loading are random, so the follow-up comparison ignores cell UUIDs",
